@@ -289,7 +289,7 @@ func genSmallCmd(out string, seed uint64, thorough bool) error {
 			// between Truncate and sync inside cut; a tail grown past its preallocation)
 			li := len(b.files) - 1
 			ts := map[int]bool{endA: true, endB: true}
-			for _, dlt := range []int{1, 8, 9, 17} {
+			for _, dlt := range []int{1, 8, 9} {
 				ts[endA+dlt] = true
 				ts[endB-dlt] = true
 			}
